@@ -38,6 +38,32 @@ class Unsupported(BaseException):
     """The proxies cannot model an operation: loud failure, never a silent guess."""
 
 
+class HarnessBug(BaseException):
+    """An exception raised by the harness' own code (not by the code under analysis)."""
+
+
+def emulated(exc):
+    """tag an exception that a stub raises on purpose to emulate the real library"""
+    exc._sx_emulated = True
+    return exc
+
+
+_VERIF_ROOT = __file__.rsplit("/symx/", 1)[0] + "/"
+
+
+def _raised_by_harness(e):
+    if getattr(e, "_sx_emulated", False):
+        return False
+    tb = e.__traceback__
+    last = None
+    while tb is not None:
+        last = tb
+        tb = tb.tb_next
+    if last is None:
+        return False
+    return last.tb_frame.f_code.co_filename.startswith(_VERIF_ROOT)
+
+
 class Counterexample(BaseException):
     def __init__(self, label, model_values, detail=None):
         super().__init__(label)
@@ -584,6 +610,10 @@ class SymReal:
         return _divide(self, o)
 
     def __rtruediv__(self, o):
+        if isinstance(o, (list, tuple)):  # numpy semantics of list / np.float64
+            from .npshim import Arr
+
+            return Arr(list(o)) / self
         o = _real_or_ni(o)
         if o is NotImplemented:
             return o
@@ -703,7 +733,7 @@ def _divide(a, b):
     """a / b with Python float semantics for zero: ZeroDivisionError."""
     sg = _sign_of(b.n)
     if sg == 0:
-        raise ZeroDivisionError("float division by zero")
+        raise emulated(ZeroDivisionError("float division by zero"))
     # a/b = (a.n * b.d) / (a.d * b.n); keep the denominator positive
     num = a.n if b.d is None else a.n * b.d
     den = b.n if a.d is None else a.d * b.n
@@ -1201,6 +1231,8 @@ def explore(fn, max_paths=100000, deadline=None, query_timeout_ms=10000, on_path
             except Unsupported:
                 raise
             except Exception as e:  # the code under analysis raised
+                if _raised_by_harness(e):
+                    raise HarnessBug(f"{type(e).__name__}: {e}\n{traceback.format_exc(limit=8)}") from e
                 pr.status = "exc"
                 pr.exc = e
                 pr.tb = traceback.format_exc(limit=6)
